@@ -501,6 +501,20 @@ def run_impl(script: str, payload, timeout: int = 600):
     raise RuntimeError(f"{script}: no JSON in output: {out[-500:]} {err[-500:]}")
 
 
+def run_tie(run: "Run", tie, **kw):
+    """Run one bridge / translator tie (harness/<name>tie.py: obligations(run, ...)) inside a check.  A tie that
+    crashes is a failed obligation of this run, never a silent skip."""
+    name = getattr(tie, "__name__", str(tie))
+    t0 = time.time()
+    try:
+        tie.obligations(run, **kw)
+    except Exception:
+        tb = traceback.format_exc()
+        run.log(f"TIE {name} crashed\n" + tb)
+        run.oblige(f"tie:{name} ran to completion", False, tb[-1200:])
+    run.notes.append(f"tie {name}: {time.time() - t0:.1f}s")
+
+
 def main(argv=None):
     import argparse
     import importlib
